@@ -417,20 +417,6 @@ def dsk2(ctx, c):
                 c.check(off == woff, "list_files:%s" % nm, "@%d" % woff, "reads @%d (entry has it @%d)" % (off, woff),
                         "list_files reads the %s from entry offset %d, Disk BASIC stores it at %d" % (nm, off, woff), wl)
     c.floor("list_files paths building a CoCoFile", nfile, 1)
-    # size gate of list_files: lower bound only
-    gate = None
-    for n in ast.walk(lf.node):
-        if isinstance(n, ast.If) and n.body and isinstance(n.body[-1], ast.Raise) and "len(self.buffer)" in U(n.test) and isinstance(n.test, ast.Compare):
-            gate = n
-    if gate is None:
-        c.finding("list_files:size-gate", "no size test", "DiskFile.list_files accepts a buffer of any size as a disk image (sniffing relies on it raising for short buffers)", wl)
-    else:
-        op = type(gate.test.ops[0]).__name__
-        k = try_fold(gate.test.comparators[0], ctx.env)
-        good = op == "Lt" and k == D.IMAGE_SIZE
-        c.check(good, "list_files:size-gate", "rejects buffers shorter than 161280", "rejects when len %s %s" % (op, k),
-                "DiskFile.list_files rejects a buffer when len(buffer) %s %s; a disk image is any buffer of at least 161,280 bytes (35 tracks; larger images exist), "
-                "a rejected disk image is then sniffed as another kind" % (op, k), repo.loc(lf, gate))
 
 
 def dsk3(ctx, c):
@@ -829,4 +815,26 @@ def _stream_len(o, p_data):
     return best
 
 
-RULES = {"DSK-1": dsk1, "DSK-2": dsk2, "DSK-3": dsk3, "DSK-4": dsk4, "DSK-6": dsk6, "DSK-7": dsk7, "DSK-12": dsk12}
+def vf6(ctx, c):
+    """VF-6 the disk sniffer's size gate is a lower bound (any buffer of at least 161,280 bytes is offered to the directory parser)."""
+    repo = ctx.repo
+    lf = repo.method(CLS, "list_files")
+    wl = repo.loc(lf, lf.node)
+    gate = None
+    for n in ast.walk(lf.node):
+        if isinstance(n, ast.If) and n.body and isinstance(n.body[-1], ast.Raise) and "len(self.buffer)" in U(n.test) and isinstance(n.test, ast.Compare):
+            gate = n
+    if gate is None:
+        c.finding("list_files:size-gate", "no size test", "DiskFile.list_files accepts a buffer of any size as a disk image (sniffing relies on it raising for short buffers)", wl)
+    else:
+        op = type(gate.test.ops[0]).__name__
+        k = try_fold(gate.test.comparators[0], ctx.env)
+        good = op == "Lt" and k == D.IMAGE_SIZE
+        c.check(good, "list_files:size-gate", "rejects buffers shorter than 161280", "rejects when len %s %s" % (op, k),
+                "DiskFile.list_files rejects a buffer when len(buffer) %s %s; a disk image is any buffer of at least 161,280 bytes (35 tracks; larger images exist), "
+                "a rejected disk image is then sniffed as another kind" % (op, k), repo.loc(lf, gate))
+
+
+
+
+RULES = {"VF-6": vf6, "DSK-1": dsk1, "DSK-2": dsk2, "DSK-3": dsk3, "DSK-4": dsk4, "DSK-6": dsk6, "DSK-7": dsk7, "DSK-12": dsk12}
